@@ -94,7 +94,7 @@ KINDS = {"quantity": ["wrong_dimension", "negative", "raw_number", "string", "ba
          "list": ["wrong_class_element", "string_element"], "choice": ["outside_allowed_values"],
          "hourly": ["scalar_instead", "raw_number", "other_length"], "link": ["wrong_class_link"],
          "tz": ["raw_string"]}
-SITES = ["construction", "assignment", "group"]
+SITES = ["construction", "assignment", "group", "list_mutator"]
 
 
 def grid(spec):
@@ -109,6 +109,8 @@ def grid(spec):
             for kind in KINDS[pk]:
                 for site in SITES:
                     if site == "construction" and (not first_of_class or kind == "other_length"):
+                        continue
+                    if site == "list_mutator" and pk != "list":
                         continue
                     cells.append({"obj": n, "cls": e["cls"], "param": p, "pkind": pk, "kind": kind, "site": site})
     return cells
@@ -217,7 +219,23 @@ def run_cell(cell, objs, spec, ctx, case, reach=None, before=None):
         val_before = snap.snapshot(reach, calc=True, inputs=True)
         try:
             with M.watchdog():
-                if cell["site"] == "assignment":
+                if cell["site"] == "list_mutator":
+                    lst = getattr(obj, cell["param"])
+                    how = ["append", "iadd", "insert", "extend", "setitem"][len(cell["obj"] + cell["kind"]) % 5]
+                    if how == "append":
+                        lst.append(bad[-1])
+                    elif how == "iadd":
+                        lst += [bad[-1]]
+                        setattr(obj, cell["param"], lst)
+                    elif how == "insert":
+                        lst.insert(0, bad[-1])
+                    elif how == "extend":
+                        lst.extend([bad[-1]])
+                    elif len(lst):
+                        lst[0] = bad[-1]
+                    else:
+                        lst.append(bad[-1])
+                elif cell["site"] == "assignment":
                     setattr(obj, cell["param"], bad)
                 else:
                     cur = getattr(obj, cell["param"])
